@@ -303,6 +303,13 @@ func (p c09Prop) Gen(seed uint64, tier string, i int) Case {
 	}
 	sels := c09Selectors()
 	enumPairs, sampled, _ := p.counts(tier)
+	nameless := func(sel string) string {
+		// a selector without a fixed metric name: it can return two series that differ in the name only
+		if sel == "" {
+			return `{__name__=~"m0|m1"}`
+		}
+		return `{__name__=~"m0|m1",` + sel[1:]
+	}
 	mk := func(si, sj, tmpl int, twoMetrics bool) string {
 		m2 := "m0"
 		if twoMetrics {
@@ -332,6 +339,13 @@ func (p c09Prop) Gen(seed uint64, tier string, i int) Case {
 			return r.Intn(len(sels))
 		}
 		c.Query = mk(pickSel(), pickSel(), r.Intn(len(c09Templates)), r.P(0.5))
+		if r.P(0.12) {
+			a, b := "m0"+sels[pickSel()], nameless(sels[pickSel()])
+			if r.P(0.5) {
+				a, b = b, a
+			}
+			c.Query = fmt.Sprintf(c09Templates[r.Intn(len(c09Templates))], a, b)
+		}
 		if r.P(0.15) { // triples
 			c.Query = fmt.Sprintf("(%s) + m0%s", c.Query, sels[r.Intn(len(sels))])
 		}
